@@ -744,6 +744,303 @@ func extractC14(c *ctxT) {
 	sb.WriteString("def stakingValidateChecks : List String := " + q(checks) + "\n\n")
 	c.facts["C14.stakingValidateChecks"] = checks
 
+	// ---- genesis export / import of the migrate module ----------------------------------------------------
+	// IterateMigrateRecords: the value flag named by the `continue` branch of its loop; ExportGenesis: where the exported
+	// From / To come from (record key / record value), what the callback does with a record and what it returns;
+	// InitGenesis: the keeper calls made per exported record, arguments traced back to the record's fields
+	expSkip := "none"
+	var expShape []string
+	if fd := c.findFunc(c14Keeper, "Keeper", "IterateMigrateRecords"); fd != nil && fd.Body != nil {
+		ast.Inspect(fd.Body, func(n ast.Node) bool {
+			switch x := n.(type) {
+			case *ast.IfStmt:
+				if len(x.Body.List) == 1 {
+					if br, ok := x.Body.List[0].(*ast.BranchStmt); ok && br.Tok == token.CONTINUE {
+						cond := c.src(x.Cond)
+						switch {
+						case strings.HasPrefix(cond, "bytes.Equal(iter.Value()[:1], ") && strings.Contains(cond, "ValuePrefixMigrateToFlag"):
+							expSkip = "ValuePrefixMigrateToFlag"
+						case strings.HasPrefix(cond, "bytes.Equal(iter.Value()[:1], ") && strings.Contains(cond, "ValuePrefixMigrateFromFlag"):
+							expSkip = "ValuePrefixMigrateFromFlag"
+						default:
+							expSkip = "?" + cond
+						}
+					}
+				}
+			case *ast.CompositeLit:
+				if strings.HasSuffix(c.src(x.Type), "MigrateRecord") {
+					for _, el := range x.Elts {
+						if kv, ok := el.(*ast.KeyValueExpr); ok {
+							k, v := c.src(kv.Key), c.src(kv.Value)
+							if k != "From" && k != "To" {
+								continue
+							}
+							switch {
+							case strings.Contains(v, "iter.Key()[1:]"):
+								expShape = append(expShape, k+"=key")
+							case strings.Contains(v, "iter.Value()[1 : addressLen+1]") || strings.Contains(v, "iter.Value()[1:addressLen+1]"):
+								expShape = append(expShape, k+"=value")
+							default:
+								expShape = append(expShape, k+"=?"+v)
+							}
+						}
+					}
+				}
+			}
+			return true
+		})
+	}
+	if fd := c.findFunc(c14Keeper, "Keeper", "ExportGenesis"); fd != nil && fd.Body != nil {
+		ast.Inspect(fd.Body, func(n ast.Node) bool {
+			fl, ok := n.(*ast.FuncLit)
+			if !ok {
+				return true
+			}
+			for _, st := range fl.Body.List {
+				switch x := st.(type) {
+				case *ast.AssignStmt:
+					if strings.Contains(c.src(x), "MigrateRecords = append(") && strings.HasSuffix(strings.TrimSpace(c.src(x)), ", record)") {
+						expShape = append(expShape, "append")
+					} else {
+						expShape = append(expShape, "?"+c.src(x))
+					}
+				case *ast.ReturnStmt:
+					expShape = append(expShape, "return "+c.src(x.Results[0]))
+				default:
+					expShape = append(expShape, "?"+c.src(st))
+				}
+			}
+			return false
+		})
+	}
+	var impCalls []string
+	if fd := c.findFunc(c14Keeper, "Keeper", "InitGenesis"); fd != nil && fd.Body != nil {
+		ast.Inspect(fd.Body, func(n ast.Node) bool {
+			rs, ok := n.(*ast.RangeStmt)
+			if !ok || !strings.HasSuffix(c.src(rs.X), ".MigrateRecords") {
+				return true
+			}
+			vars := map[string]string{}
+			trace := func(e string) string {
+				if v, ok := vars[e]; ok {
+					return v
+				}
+				for _, f := range []string{"record.From", "record.To"} {
+					if strings.Contains(e, f) {
+						return f
+					}
+				}
+				return "?" + e
+			}
+			ast.Inspect(rs.Body, func(m ast.Node) bool {
+				switch y := m.(type) {
+				case *ast.AssignStmt:
+					if len(y.Lhs) >= 1 && len(y.Rhs) == 1 {
+						if id, ok := y.Lhs[0].(*ast.Ident); ok && id.Name != "err" && id.Name != "_" {
+							vars[id.Name] = trace(c.src(y.Rhs[0]))
+						}
+					}
+				case *ast.CallExpr:
+					if se, ok := y.Fun.(*ast.SelectorExpr); ok && c.src(se.X) == "k" {
+						var as []string
+						for _, a := range y.Args[1:] {
+							as = append(as, trace(c.src(a)))
+						}
+						impCalls = append(impCalls, se.Sel.Name+"("+strings.Join(as, ",")+")")
+					}
+				}
+				return true
+			})
+			return false
+		})
+	}
+	sb.WriteString("/-- genesis: the value flag whose records `IterateMigrateRecords` skips; where `From` / `To` of an exported record come from and what\n`ExportGenesis`' callback does; the keeper calls `InitGenesis` makes per record (arguments traced to the record's fields) -/\n")
+	sb.WriteString("def genesisExportSkip : String := " + leanStr(expSkip) + "\n")
+	sb.WriteString("def genesisExportShape : List String := " + q(expShape) + "\n")
+	sb.WriteString("def genesisImportCalls : List String := " + q(impCalls) + "\n\n")
+	c.facts["C14.genesisExportSkip"] = expSkip
+	c.facts["C14.genesisExportShape"] = expShape
+	c.facts["C14.genesisImportCalls"] = impCalls
+
+	// ---- Execute as a program: the store statements of each iterator loop, outside / inside its entry loop, in source order
+	// (scope, op, store, key constructor, arguments, value); the model parses and INTERPRETS this list
+	type xst struct{ scope, op, store, key, args, val string }
+	var prog []xst
+	if fd := c.findFunc(c14Keeper, "DistrStakingMigrate", "Execute"); fd != nil && fd.Body != nil {
+		srcOf := func(e ast.Expr) string { return strings.Join(strings.Fields(c.src(e)), "") }
+		keyCall := func(e ast.Expr) (string, string, bool) {
+			ce, ok := e.(*ast.CallExpr)
+			if !ok {
+				return "", "", false
+			}
+			se, ok := ce.Fun.(*ast.SelectorExpr)
+			if !ok || !strings.HasPrefix(se.Sel.Name, "Get") || se.Sel.Name == "Get" || strings.HasSuffix(srcOf(se.X), "Store") {
+				return "", "", false
+			}
+			var as []string
+			for _, a := range ce.Args {
+				as = append(as, srcOf(a))
+			}
+			return se.Sel.Name, strings.Join(as, ","), true
+		}
+		// iterator variable -> scope
+		iterScope := map[string]string{}
+		ast.Inspect(fd.Body, func(n ast.Node) bool {
+			as, ok := n.(*ast.AssignStmt)
+			if !ok || len(as.Lhs) != 1 || len(as.Rhs) != 1 {
+				return true
+			}
+			if ce, ok := as.Rhs[0].(*ast.CallExpr); ok {
+				if se, ok := ce.Fun.(*ast.SelectorExpr); ok && se.Sel.Name == "KVStorePrefixIterator" && len(ce.Args) == 2 {
+					if k, a, ok := keyCall(ce.Args[1]); ok {
+						sc := "?" + k
+						switch k + "(" + a + ")" {
+						case "GetDelegationsKey(from)":
+							sc = "del"
+						case "GetUBDsKey(from)":
+							sc = "ubd"
+						case "GetREDsKey(from)":
+							sc = "red"
+						}
+						iterScope[srcOf(as.Lhs[0])] = sc
+					}
+				}
+			}
+			return true
+		})
+		var walk func(stmts []ast.Stmt, scope string, vars map[string][2]string, relabel map[string]string)
+		walk = func(stmts []ast.Stmt, scope string, vars map[string][2]string, relabel map[string]string) {
+			for _, st := range stmts {
+				switch x := st.(type) {
+				case *ast.ForStmt:
+					sc := scope
+					if x.Cond != nil {
+						if ce, ok := x.Cond.(*ast.CallExpr); ok {
+							if se, ok := ce.Fun.(*ast.SelectorExpr); ok && se.Sel.Name == "Valid" {
+								if v, ok := iterScope[srcOf(se.X)]; ok {
+									sc = v
+								}
+							}
+						}
+					}
+					if sc == scope && scope != "" {
+						continue // the inner `for i := range queue` loops belong to the Queue statement
+					}
+					walk(x.Body.List, sc, map[string][2]string{}, map[string]string{})
+				case *ast.RangeStmt:
+					if strings.HasSuffix(srcOf(x.X), ".Entries") && scope != "" && !strings.HasSuffix(scope, ".entry") {
+						walk(x.Body.List, scope+".entry", vars, relabel)
+					}
+				case *ast.AssignStmt:
+					if len(x.Rhs) != 1 {
+						continue
+					}
+					lhs := srcOf(x.Lhs[0])
+					// X.DelegatorAddress = sdk.AccAddress(to.Bytes()).String()
+					if strings.HasSuffix(lhs, ".DelegatorAddress") {
+						who := "?" + srcOf(x.Rhs[0])
+						switch srcOf(x.Rhs[0]) {
+						case "sdk.AccAddress(to.Bytes()).String()":
+							who = "to"
+						case "from.String()":
+							who = "from"
+						}
+						relabel[strings.TrimSuffix(lhs, ".DelegatorAddress")] = who
+						continue
+					}
+					if k, a, ok := keyCall(x.Rhs[0]); ok && len(x.Lhs) == 1 {
+						vars[lhs] = [2]string{k, a}
+						continue
+					}
+					if ce, ok := x.Rhs[0].(*ast.CallExpr); ok {
+						if se, ok := ce.Fun.(*ast.SelectorExpr); ok {
+							switch {
+							case se.Sel.Name == "Get" && strings.HasSuffix(srcOf(se.X), "Store") && len(ce.Args) == 1:
+								k, a := "?"+srcOf(ce.Args[0]), ""
+								if kk, aa, ok := keyCall(ce.Args[0]); ok {
+									k, a = kk, aa
+								} else if v, ok := vars[srcOf(ce.Args[0])]; ok {
+									k, a = v[0], v[1]
+								}
+								prog = append(prog, xst{scope, "Get", srcOf(se.X), k, a, lhs})
+							case strings.HasSuffix(se.Sel.Name, "QueueTimeSlice") && len(ce.Args) == 2 && strings.HasSuffix(scope, ".entry"):
+								prog = append(prog, xst{scope, "Queue", "stakingKeeper", se.Sel.Name, srcOf(ce.Args[1]), ""})
+							}
+						}
+					}
+				case *ast.ExprStmt:
+					ce, ok := x.X.(*ast.CallExpr)
+					if !ok {
+						continue
+					}
+					se, ok := ce.Fun.(*ast.SelectorExpr)
+					if !ok || (se.Sel.Name != "Delete" && se.Sel.Name != "Set") || !strings.HasSuffix(srcOf(se.X), "Store") || len(ce.Args) < 1 {
+						continue
+					}
+					k, a := "?"+srcOf(ce.Args[0]), ""
+					if kk, aa, ok := keyCall(ce.Args[0]); ok {
+						k, a = kk, aa
+					} else if v, ok := vars[srcOf(ce.Args[0])]; ok {
+						k, a = v[0], v[1]
+					} else if strings.HasSuffix(srcOf(ce.Args[0]), "Iterator.Key()") {
+						k, a = "iter", iterScope[strings.TrimSuffix(srcOf(ce.Args[0]), ".Key()")]
+					}
+					val := ""
+					if se.Sel.Name == "Set" && len(ce.Args) == 2 {
+						v := srcOf(ce.Args[1])
+						switch {
+						case v == "[]byte{}":
+							val = "empty"
+						case strings.HasPrefix(v, "stakingtypes.MustMarshal") && strings.HasPrefix(v[strings.Index(v, "(")+1:], "cdc,"):
+							obj := strings.TrimSuffix(v[strings.Index(v, "(")+5:], ")")
+							val = "record:" + relabel[obj]
+						default:
+							if kk, aa, ok := keyCall(ce.Args[1]); ok {
+								val = kk + "(" + aa + ")"
+							} else {
+								val = v
+							}
+						}
+					}
+					prog = append(prog, xst{scope, se.Sel.Name, srcOf(se.X), k, a, val})
+				case *ast.IfStmt:
+					// `if flag { key := …TimeKey(entry.CompletionTime); … Set(key, value) }` closes the Queue statement
+					if strings.HasSuffix(scope, ".entry") && strings.HasSuffix(srcOf(x.Cond), "Flag") {
+						tk := "?"
+						ast.Inspect(x.Body, func(m ast.Node) bool {
+							if as, ok := m.(*ast.AssignStmt); ok && len(as.Rhs) == 1 {
+								if kk, aa, ok := keyCall(as.Rhs[0]); ok && strings.HasSuffix(kk, "TimeKey") {
+									tk = kk + "(" + aa + ")"
+								}
+							}
+							return true
+						})
+						for i := len(prog) - 1; i >= 0; i-- {
+							if prog[i].op == "Queue" && prog[i].scope == scope && prog[i].val == "" {
+								prog[i].val = tk
+								break
+							}
+						}
+					}
+				}
+			}
+		}
+		walk(fd.Body.List, "", map[string][2]string{}, map[string]string{})
+	}
+	sb.WriteString("/-- `DistrStakingMigrate.Execute` as a program: the store statements of each iterator loop (`del` / `ubd` / `red`), outside and\ninside (`.entry`) its entry loop, in source order: (scope, operation, store, key constructor, arguments, value) -/\n")
+	sb.WriteString("def executeProgram : List (String × String × String × String × String × String) := [\n")
+	var progFacts [][]string
+	for i, w := range prog {
+		sep := ","
+		if i == len(prog)-1 {
+			sep = ""
+		}
+		sb.WriteString("  (" + leanStr(w.scope) + ", " + leanStr(w.op) + ", " + leanStr(w.store) + ", " + leanStr(w.key) + ", " + leanStr(w.args) + ", " + leanStr(w.val) + ")" + sep + "\n")
+		progFacts = append(progFacts, []string{w.scope, w.op, w.store, w.key, w.args, w.val})
+	}
+	sb.WriteString("]\n\n")
+	c.facts["C14.executeProgram"] = progFacts
+
 	sb.WriteString("end FxVerif.Gen.C14\n")
 	c.write("C14.lean", sb.String())
 }
